@@ -29,8 +29,8 @@ HARNESSES = {
     "sim_replay":  ("sim_replay.cpp", "sim", "plain"),
     "conf_rc":     ("conf_rc.cpp", "sim", "rc", ["conf_inc.c"]),
     "allocfail":   ("allocfail.cpp", "sim", "rc"),
-    "threads_tsan":  ("threads.cpp", "tsan", "plain"),
-    "threads_tasan": ("threads.cpp", "tasan", "plain"),
+    "threads_tsan":  ("threads.cpp", "tsan", "rc"),
+    "threads_tasan": ("threads.cpp", "tasan", "rc"),
 }
 
 
